@@ -10,6 +10,7 @@ import (
 	_ "verifharness/lru"
 	_ "verifharness/persist"
 	_ "verifharness/pool"
+	_ "verifharness/scale"
 	_ "verifharness/shardid"
 	_ "verifharness/stress"
 	_ "verifharness/timecache"
